@@ -52,7 +52,7 @@ class Impl:
         self.outcomes: list[str] = []
         asyncio.set_event_loop(self.loop)
         self.adapter = self.loop.run_until_complete(AsyncIOBackend().wrap_stream_socket(self.sock))
-        self.proto = getattr(self.adapter, "_AsyncioTransportStreamSocketAdapter__protocol")
+        self.proto = getattr(self.adapter, "_AsyncioTransportStreamSocketAdapter__protocol", None)
         self.fd = self.sock.fileno()
         asyncio.events._set_running_loop(self.loop)
         self.task = self.loop.create_task(self._reader(maxcalls))
@@ -100,9 +100,10 @@ class Impl:
             return 0
 
     def project(self) -> dict[str, Any]:
+        size = getattr(self.proto, "_get_read_buffer_size", None)
         return {
             "delivered": tuple(self.delivered),
-            "internal_len": self.proto._get_read_buffer_size(),
+            **({"internal_len": size()} if size is not None else {}),
             "kernel_len": self.kernel(),
             "outcomes": tuple(self.outcomes),
             "finished": self.task.done(),
@@ -147,8 +148,9 @@ class Impl:
         try:
             if not self.task.done():
                 self.task.cancel()
-            tr = getattr(self.adapter, "_AsyncioTransportStreamSocketAdapter__transport")
-            tr.abort()
+            tr = getattr(self.adapter, "_AsyncioTransportStreamSocketAdapter__transport", None)
+            if tr is not None:
+                tr.abort()
             self.loop.run_until_complete(asyncio.sleep(0))
             self.loop.run_until_complete(asyncio.sleep(0))
         except BaseException:  # noqa: BLE001
